@@ -151,6 +151,55 @@ static void state_hash(uint64_t out[2], uint64_t secfold[NSEC])
         out[0] = all.a; out[1] = all.b | 2;      /* never {0,0} / {x,1}: reserved by the harness */
 }
 
+
+/* ======================================================================== */
+/* structural audit: every write index the decoder keeps between calls must */
+/* be inside its array (what ASan cannot see inside one heap block)         */
+/* ======================================================================== */
+
+#define AUDIT(cond, key, ...) do { if (!(cond)) { viol("audit: " key, __VA_ARGS__); return; } } while (0)
+
+static void audit(void)
+{
+        vbi_decoder *v = G.vbi;
+        AUDIT(v->chswcd >= 0 && v->chswcd <= 40, "channel switch countdown outside 0..40", "chswcd=%d | %s", v->chswcd, cur_ctx);
+        AUDIT(!v->vt.current || (v->vt.current >= v->vt.raw_page && v->vt.current < v->vt.raw_page + 8), "vt.current outside raw_page[8]", "%s", cur_ctx);
+        for (int m = 0; m < 8; m++) {
+                int nt = v->vt.raw_page[m].num_triplets;
+                AUDIT(nt >= -1 && nt <= 16 * 13, "X/26 triplet count outside -1..208", "magazine %d num_triplets=%d | %s", m, nt, cur_ctx);
+        }
+        struct caption *cc = &v->cc;
+        AUDIT(cc->curr_chan >= 0 && cc->curr_chan <= 8, "caption curr_chan outside 0..8", "curr_chan=%d | %s", cc->curr_chan, cur_ctx);
+        for (int i = 0; i < 9; i++) {
+                cc_channel *ch = &cc->channel[i];
+                AUDIT(ch->col >= 0 && ch->col <= 33 && ch->col1 >= 0 && ch->col1 <= 33 && ch->row >= 0 && ch->row <= 14 && ch->row1 >= 0 && ch->row1 <= 14
+                      && ch->roll >= 0 && ch->roll <= 15 && (ch->hidden == 0 || ch->hidden == 1),
+                      "caption cursor / window outside the 15 x 34 page", "channel %d col=%d col1=%d row=%d row1=%d roll=%d hidden=%d | %s", i, ch->col, ch->col1, ch->row, ch->row1, ch->roll, ch->hidden, cur_ctx);
+                /* (vbi_caption_channel_switched() sets the cursor before it resets ch->hidden, so `line' may address the row in the
+                 * other buffer of this channel: text then lands in the neighbour channel's page - wrong, but inside struct caption,
+                 * a display defect for C08, not a C01 violation) */
+                AUDIT(ch->line == ch->pg[0].text + ch->row * 34 || ch->line == ch->pg[1].text + ch->row * 34, "caption line pointer does not address the cursor row of this channel", "channel %d row=%d | %s", i, ch->row, cur_ctx);
+                if (ch->line != ch->pg[ch->hidden].text + ch->row * 34) mc_count("caption_line_in_other_buffer_after_reset", 1);
+        }
+        AUDIT(cc->itv_count >= 0 && cc->itv_count <= 255, "ITV buffer fill outside 0..255", "itv_count=%d | %s", cc->itv_count, cur_ctx);
+        AUDIT(!cc->curr_sp || (cc->curr_sp >= &cc->sub_packet[0][0] && cc->curr_sp <= &cc->sub_packet[3][0x17]), "XDS curr_sp outside the sub-packet table", "%s", cur_ctx);
+        for (int c = 0; c < 4; c++) for (int t = 0; t < 0x18; t++) {
+                int n = cc->sub_packet[c][t].count;
+                AUDIT(n >= 0 && n <= 34, "XDS sub-packet count outside 0..34", "class %d type %#x count=%d | %s", c, t, n, cur_ctx);
+        }
+        cache_network *cn = v->cn;
+        AUDIT(cn->have_top == 0 || cn->have_top == 1, "cache_network.have_top is not a boolean (overwritten)", "have_top=%d | %s", cn->have_top, cur_ctx);
+        for (int m = 0; m < 8; m++) {
+                const struct ttx_magazine *mg = &cn->_magazines[m];
+                AUDIT((unsigned) mg->extension.charset_code[0] <= 127 && (unsigned) mg->extension.charset_code[1] <= 127, "magazine character set code outside 0..127",
+                      "magazine %d charset %d,%d | %s", m + 1, mg->extension.charset_code[0], mg->extension.charset_code[1], cur_ctx);
+                for (int i = 0; i < 256; i++)
+                        AUDIT(mg->pop_lut[i] >= -1 && mg->pop_lut[i] <= 7 && mg->drcs_lut[i] >= -1 && mg->drcs_lut[i] <= 7, "MOT link table entry outside -1..7",
+                              "magazine %d page %02x pop %d drcs %d | %s", m + 1, i, mg->pop_lut[i], mg->drcs_lut[i], cur_ctx);
+        }
+        mc_count("audits", 1);
+}
+
 /* ======================================================================== */
 /* probes: consequences of what was decoded, observed through the read side */
 /* ======================================================================== */
@@ -166,6 +215,15 @@ static void probes(int heavy)
                         consume_page(pg, 0, heavy); unref(pg);
                 }
                 if (fetch_vt(pg, pk[i].pgno, VBI_ANY_SUBNO, 1, 2, 0)) { if (heavy) consume_page(pg, 0, 0); unref(pg); }
+                /* the palette does not depend on the number of rows formatted: a 25 row fetch whose palette differs from the
+                 * header-only fetch has written into color_map[] (the member behind text[]) while formatting the rows */
+                if (i < 3 && fetch_vt(pg, pk[i].pgno, pk[i].subno, 3, 25, 0)) {
+                        vbi_rgba cm[40]; memcpy(cm, pg->color_map, sizeof cm); unref(pg);
+                        if (fetch_vt(pg, pk[i].pgno, pk[i].subno, 3, 1, 0)) {
+                                if (memcmp(cm, pg->color_map, sizeof cm)) viol("fetched vbi_page: color_map of a 25 row fetch differs from the header-only fetch (overwritten)", "page %x/%x | %s", pk[i].pgno, pk[i].subno, cur_ctx);
+                                unref(pg);
+                        }
+                }
                 if (heavy && fetch_vt(pg, pk[i].pgno, pk[i].subno, 2, 25, 1)) {
                         for (int r = 1; r <= 4; r++) if (pk[i].pgno == 0x100 && (pg->text[r * 41 + 2].unicode == 'P' || pg->text[r * 41 + 2].unicode == 0x041F)) G.reached_pop_obj++;
                         unref(pg);
@@ -198,7 +256,7 @@ static void probes_cc(void)
 /* E2 layers                                                                */
 /* ======================================================================== */
 
-struct layer { const char *name; int n; uint8_t map[256]; int npre; uint8_t pre[64]; int depth[2]; };
+struct layer { const char *name; int n; uint8_t map[256]; int npre; uint8_t pre[64]; int depth[2]; int probe; };
 #define MAXLY 12
 static struct layer LY[MAXLY]; static int NLY;
 
@@ -222,6 +280,7 @@ static void replay_layer(const struct layer *ly, const uint8_t *hist, int n, uin
         ex_begin();
         for (int i = 0; i < ly->npre; i++) do_letter(ly->pre[i]);
         for (int i = 0; i < n; i++) do_letter(ly->map[hist[i]]);
+        audit();
         state_hash(hash, secfold);
 }
 
@@ -234,6 +293,9 @@ static int bfs_run(const uint8_t *hist, int n, uint64_t hash[2], void *arg)
         set_ctx(ly->name, ly, hist, n);
         uint64_t sf[NSEC], sf2[NSEC], h2[2];
         replay_layer(ly, hist, n, hash, sf);
+        /* layers without read side letters: when the last letter was a page header (the only moment a page is stored)
+         * the cached pages are formatted on the object that is thrown away anyway */
+        if (ly->probe && n && LT[ly->map[hist[n - 1]]].kind == LK_TTX && LT[ly->map[hist[n - 1]]].a < P_R1_TEXT) { probes(0); mc_count("bfs_probes", 1); }
         int events = (int) G.nevents, unterminated = (int) G.unterminated, cuts = G.search_cuts;
         int leaks = ex_end();
         bfs_transitions++;
@@ -252,7 +314,7 @@ static int bfs_run(const uint8_t *hist, int n, uint64_t hash[2], void *arg)
         if (unterminated) mc_count("event_strings_unterminated", unterminated);
         if (cuts) mc_count("search_visit_bound_cuts", cuts);
         if (n) mc_distinct(hash[0] ^ rotl64(hash[1], 23));
-        if ((bfs_transitions & 1023) == 0) mc_leak_check("LeakSanitizer: block not seen by the allocator accounting (libc allocation) leaked");
+        if ((bfs_transitions & 16383) == 0) mc_leak_check("LeakSanitizer: block not seen by the allocator accounting (libc allocation) leaked");
         (void) leaks;
         return 0;
 }
@@ -262,7 +324,7 @@ static int bfs_run(const uint8_t *hist, int n, uint64_t hash[2], void *arg)
 /* ======================================================================== */
 
 #define SMAX 40
-struct story { const char *name; int quick; int n; short step[SMAX]; unsigned expect; };
+struct story { const char *name; int quick; int n; short step[SMAX]; unsigned expect; int nobytes; };
 enum { X_POP = 1, X_DRCS = 2, X_TOPNAV = 4, X_TITLE = 8, X_TRIGGER = 16, X_TOPINDEX = 32, X_LOP = 64, X_FLOF = 128 };
 #define MAXSTORY 16
 static struct story ST[MAXSTORY]; static int NST;
@@ -293,6 +355,8 @@ static void build_stories(void)
         s = story_new("local enhancement, X/26..M/29 designations", 1, X_LOP);
         STP(s, P_H100E, P_R1_TEXT, P_X26_0L, P_X26_1, P_X26_2, P_H1FF, P_H100E, P_R1_ATTR, P_X26_15, P_X26_BAD, P_X27_0, P_X27_1, P_X27_4, P_X28_0, P_X28_1, P_X28_4,
             P_M29_0, P_M29_1, P_M29_4, P_X28_0POP, P_H1FF);
+        s = story_new("POP objects with out of range pointers", 1, X_LOP);
+        STP(s, P_H17B, P_POP_R1, P_POP_R3, P_POP_R4, P_H1FE, P_MOT_R1, P_MOT_R19, P_H100E, P_R1_TEXT, P_X26_0P, P_H101, P_R1_TEXT, P_X26_0Q, P_H1FF);
         s = story_new("subpages, control bits, row attributes, parity", 0, X_LOP);
         STP(s, P_H100SUB1, P_R1_TEXT, P_H100SUB2, P_R1_ATTR, P_R2_SIZE, P_R23_DH, P_H100NEWS, P_R1_TEXT, P_H100C7, P_R25, P_H100NAT, P_R1_BADPAR, P_H100, P_R1_TEXT, P_H1FF);
         s = story_new("serial / parallel magazines, fillers", 0, X_LOP);
@@ -301,6 +365,9 @@ static void build_stories(void)
         STP(s, P_H100E, P_R1_TEXT, P_H1FF, P_830_1, P_830_1, P_830_1B, P_830_1B, P_830_2, P_830_2, P_830_2B, P_830_2B, P_H100E, P_R1_TEXT, P_H1FF);
         s = story_new("MIP with sub-page index, EPG / system pages", 0, X_LOP);
         STP(s, P_H1FD, P_MIP_R1, P_MIP_R11, P_MIP_R15, P_H1FF, P_H100, P_R1_TEXT, P_H17E, P_R1_TEXT, P_H16B, P_R1_TEXT, P_H1FF);
+        s = story_new("X/26 flood: 20 enhancement packets for one page", 1, X_LOP); s->nobytes = 1;
+        STP(s, P_H100E, P_R1_TEXT, P_X26_0L, P_X26_1, P_X26_2, P_X26_15, P_X26_15, P_X26_0L, P_X26_1, P_X26_15, P_X26_15, P_X26_15, P_X26_0L, P_X26_1, P_X26_15, P_X26_15, P_X26_15, P_X26_15,
+            P_X26_0L, P_X26_1, P_X26_15, P_X26_15, P_H1FF);
         s = story_new("damaged headers", 0, 0);
         STP(s, P_H100E, P_R1_TEXT, P_HBADPAGE, P_R1_TEXT, P_H100E, P_HBADSUB, P_R1_TEXT, P_HBADFLAGS, P_R1_TEXT, P_H1FF);
 }
@@ -314,6 +381,7 @@ static void story_selfcheck_case(uint64_t idx, void *arg)
         ex_begin();
         run_story_steps(s, 0, s->n);
         probes(1);
+        audit();
         unsigned got = (G.reached_pop_obj ? X_POP : 0) | (G.reached_drcs ? X_DRCS : 0) | (G.reached_top_nav ? X_TOPNAV : 0) | (G.reached_title ? X_TITLE : 0)
                      | (G.reached_trigger_ev ? X_TRIGGER : 0) | (G.reached_top_index ? X_TOPINDEX : 0) | (G.reached_lop_fetch ? X_LOP : 0) | (G.reached_flof ? X_FLOF : 0);
         int unterminated = (int) G.unterminated;
@@ -340,7 +408,7 @@ static void build_targets(int quick_only)
 {
         NTG = 0;
         for (int si = 0; si < NST; si++) {
-                if (quick_only && !ST[si].quick) continue;
+                if ((quick_only && !ST[si].quick) || ST[si].nobytes) continue;
                 for (int k = 0; k < ST[si].n; k++) if (LT[ST[si].step[k]].kind == LK_TTX) { TG[NTG].story = si; TG[NTG].step = k; NTG++; }
         }
 }
@@ -361,6 +429,7 @@ static void byte_case(uint64_t idx, void *arg)
                 run_story_steps(s, t->step + 1, s->n);
                 uint64_t h[2]; state_hash(h, NULL);
                 probes(0);
+                audit();
                 ex_end();
                 if (v == base[pos]) { h0[0] = h[0]; h0[1] = h[1]; }
                 mc_distinct(h[0] ^ rotl64(h[1], 23));
@@ -369,7 +438,7 @@ static void byte_case(uint64_t idx, void *arg)
         (void) changed; (void) h0;
         mc_count("evaluations", n);
         mc_count("byte_variants", n);
-        if ((idx & 31) == 0) mc_leak_check("LeakSanitizer: block not seen by the allocator accounting (libc allocation) leaked");
+        if ((idx & 127) == 0) mc_leak_check("LeakSanitizer: block not seen by the allocator accounting (libc allocation) leaked");
         if (pos == 2 && t->step == 0) mc_sample("byte exhaustive: storyline '%s' step %d (%s), byte %d x 256 values, rest of the storyline, fetch of every cached page", s->name, t->step, LT[s->step[t->step]].name, pos);
 }
 
@@ -418,13 +487,145 @@ static void ccpair_case(uint64_t idx, void *arg)
                 feed_cc(line, 'y', 'z');
                 feed_cc(284, 0x0F, 0x00);
                 probes_cc();
+                audit();
                 ex_end();
                 n++;
         }
         mc_count("evaluations", n); mc_count("caption_pairs", n);
         mc_distinct(0xCC000000ull + idx);
-        if ((idx & 63) == 0) mc_leak_check("LeakSanitizer: block not seen by the allocator accounting (libc allocation) leaked");
+        if ((idx & 255) == 0) mc_leak_check("LeakSanitizer: block not seen by the allocator accounting (libc allocation) leaked");
         if (idx == 0x114) mc_sample("caption pairs: state '%s', line %d, c1=%02x x 256 c2", CCS[k].name, line, c1);
+}
+
+
+/* ---- a fetched page outlives later input -------------------------------------- */
+
+static const char *const DISTURB[][8] = {
+        { NULL },
+        { "H17A", "DRCS row1", "DRCS row2 (one invalid byte)", "H1FF(filler)", NULL },            /* DRCS page retransmitted */
+        { "H17A", "DRCS row2 (one invalid byte)", "X/28/3 (DRCS modes)", "H17B", "POP row3 (active objects)", "H1FF(filler)", NULL },
+        { "vbi_channel_switched", "empty frame", "empty frame", NULL },
+        { "empty frame dt=+10s", "40 regular empty frames", "empty frame", NULL },
+        { "8/30/1", "8/30/1", "8/30/1 (other network)", "8/30/1 (other network)", NULL },           /* identified network change */
+        { "H100+erase", "row1 spacing attributes", "H1FF(filler)", NULL },
+        { "unregister all handlers", "handler for all events", NULL },
+        { "H17C", "DRCS row1", "H16A", "POP row1 (pointers)", "H1FF(filler)", "fetch cached pages L3.5 25 rows nav", NULL },
+        { "vbi_channel_switched", "empty frame", "H100+erase", "row1 text+links", "H17A", "DRCS row1", "H1FF(filler)", NULL },
+};
+#define NDISTURB ((int)(sizeof DISTURB / sizeof *DISTURB))
+static const int HELD_STORIES[] = { 0, 1, 2 };
+
+static void held_case(uint64_t idx, void *arg)
+{
+        int use = *(int *) arg, lvl = idx % 2, d = (idx / 2) % NDISTURB, si = HELD_STORIES[idx / (2 * NDISTURB)];
+        const struct story *s = &ST[si];
+        snprintf(cur_ctx, sizeof cur_ctx, "held page: storyline '%s', page fetched at level %s and kept, disturbance %d, then %s, then unref", s->name, lvl ? "3.5" : "2.5", d,
+                 use ? "export png+html" : "links+text+draw");
+        ex_begin();
+        run_story_steps(s, 0, s->n);
+        do_letter(letter_by_name(lvl ? "hold page L3.5" : "hold page L2.5"));
+        int had = G.held != NULL, drcs = 0;
+        if (G.held) for (int i = 0; i < 32; i++) if (G.held->drcs[i]) drcs = 1;
+        for (const char *const *l = DISTURB[d]; *l; l++) do_letter(letter_by_name(*l));
+        do_letter(letter_by_name(use ? "held page: export png+html" : "held page: links, text, draw"));
+        do_letter(letter_by_name("unref held page"));
+        audit();
+        ex_end();
+        mc_count("evaluations", 1);
+        if (had) mc_distinct(0x4E1D000000ull + idx * 2 + use);
+        if (drcs && d) mc_outcome("page holding DRCS pointers rendered after later input");
+        if (idx == 7) mc_sample("%s", cur_ctx);
+}
+
+
+/* ---- every XDS (class, type) with swept payloads ------------------------------- */
+
+static int xds_values;   /* number of payload byte values per (class, type, length) */
+
+static void xds_case(uint64_t idx, void *arg)
+{
+        int cls = idx / 0x18, type = idx % 0x18;
+        static const int LEN[] = { 1, 2, 3, 4, 5, 6, 7, 8, 16, 31, 32 };
+        uint64_t n = 0;
+        for (unsigned li = 0; li < sizeof LEN / sizeof *LEN; li++)
+                for (int vi = 0; vi < xds_values; vi++)
+                        for (int pat = 0; pat < 2; pat++) {
+                                int v = 0x20 + (xds_values >= 96 ? vi : (vi * 95) / (xds_values - 1));
+                                snprintf(cur_ctx, sizeof cur_ctx, "XDS class %d type %#x, %d payload bytes %s 0x%02x", cls, type, LEN[li], pat ? "counting from" : "all", v);
+                                ex_begin();
+                                int c1 = cls * 2 + 1, sum = c1 + type;
+                                feed_cc(284, c1, type);
+                                for (int i = 0; i < LEN[li]; i += 2) {
+                                        int a = pat ? 0x20 + (v - 0x20 + i) % 96 : v, b = i + 1 < LEN[li] ? (pat ? 0x20 + (v - 0x20 + i + 1) % 96 : v) : 0;
+                                        feed_cc(284, a, b); sum += a + b;
+                                }
+                                feed_cc(284, 0x0F, (-(sum + 0x0F)) & 0x7F);
+                                /* the same packet again: the "changed?" comparisons of xds_decoder() */
+                                if (pat == 0 && li < 4) { feed_cc(284, c1, type); feed_cc(284, v, 0); feed_cc(284, 0x0F, (-(c1 + type + v + 0x0F)) & 0x7F); }
+                                audit();
+                                ex_end();
+                                n++;
+                        }
+        mc_count("evaluations", n); mc_count("xds_packets", n);
+        mc_distinct(0xDD5000000ull + idx);
+        if (idx == 3) mc_sample("xds-types: class %d type %#x x %zu lengths x %d values x 2 patterns", cls, type, sizeof LEN / sizeof *LEN, xds_values);
+}
+
+/* ---- ATVEF trigger strings, one character replaced ---------------------------------- */
+
+static void itv_case(uint64_t idx, void *arg)
+{
+        int si = idx / 48, pos = idx % 48;
+        const char *base = si < NITVS ? (ITVS[si] ? ITVS[si] : "<http://a.b>[n:x]") : itv_cks;
+        size_t len = strlen(base);
+        if ((size_t) pos >= len) { mc_count("evaluations", 1); return; }
+        uint64_t n = 0;
+        for (int v = 0x20; v < 0x80; v++) {
+                char str[128]; snprintf(str, sizeof str, "%s", base); str[pos] = v;
+                snprintf(cur_ctx, sizeof cur_ctx, "ITV string '%.60s' with character %d := 0x%02x, in T2 + CR, then 2 frames", base, pos, v);
+                ex_begin();
+                feed_cc(21, 0x1C, 0x2B); cc_string(21, str); feed_cc(21, 0x1C, 0x2D);
+                feed_cc_raw(21, 0x80, 0x80); feed_cc_raw(21, 0x80, 0x80);
+                audit();
+                ex_end();
+                n++;
+        }
+        mc_count("evaluations", n); mc_count("itv_strings", n);
+        mc_distinct(0x17F000000ull + idx);
+}
+
+/* ---- VPS / WSS / CPR-1204 payload bytes ---------------------------------------------------- */
+
+static void line_case(uint64_t idx, void *arg)
+{
+        vbi_sliced s; uint64_t n = 0;
+        if (idx < 256) {
+                /* all 65536 WSS words: b0 = idx, b1 = 0..255; a word must repeat before it is decoded */
+                for (int b1 = 0; b1 < 256; b1++) {
+                        snprintf(cur_ctx, sizeof cur_ctx, "WSS word %02x %02x four times", (int) idx, b1);
+                        ex_begin();
+                        memset(&s, 0, sizeof s); s.id = VBI_SLICED_WSS_625; s.line = 23; s.data[0] = idx; s.data[1] = b1;
+                        for (int r = 0; r < 4; r++) feed_lines(&s, 1, 0.04);
+                        s.id = VBI_SLICED_WSS_CPR1204; s.line = 20; s.data[0] = b1; feed_lines(&s, 1, 0.04);
+                        audit();
+                        ex_end(); n++;
+                }
+        } else {
+                /* VPS: each of the 13 bytes x 256 values on two base lines, twice (a CNI must repeat) */
+                int pos = (idx - 256) % 13, base = (idx - 256) / 13;
+                for (int v = 0; v < 256; v++) {
+                        snprintf(cur_ctx, sizeof cur_ctx, "VPS base %d byte %d := 0x%02x, three times", base, pos, v);
+                        ex_begin();
+                        memset(&s, 0, sizeof s); s.id = VBI_SLICED_VPS; s.line = 16;
+                        if (base < 2) vbi_encode_vps_cni(s.data, cni_vps[base]); else memset(s.data, 0xFF, 13);
+                        s.data[pos] = v;
+                        for (int r = 0; r < 3; r++) feed_lines(&s, 1, 0.04);
+                        audit();
+                        ex_end(); n++;
+                }
+        }
+        mc_count("evaluations", n); mc_count("line_payloads", n);
+        mc_distinct(0x11E000000ull + idx);
 }
 
 /* ---- growth bound ----------------------------------------------------------- */
@@ -471,6 +672,7 @@ static void growth_run(const short *seq, int n, const char *what)
         }
         if (g[2].pages > g[1].pages && g[1].pages > g[0].pages && g[2].pages - g[1].pages == g[1].pages - g[0].pages)
                 mc_count("growth_cached_pages_linear", 1);
+        audit();
         ex_end();
         mc_count("evaluations", 1);
 }
@@ -599,17 +801,29 @@ static void warm_up(void)
         /* one clean execution in the parent, not accounted: lets libc / libpng / iconv do their one
          * time allocations before the workers are forked */
         snprintf(cur_ctx, sizeof cur_ctx, "warm up");
+        viol_muted = 1;
+        acct_begin();           /* tracked only to release what a leaking library leaves behind: the workers check it */
         memset(&G, 0, sizeof G);
         G.vbi = vbi_decoder_new(); G.t = 1000.0;
         if (!G.vbi) harness_die("vbi_decoder_new failed");
         vbi_event_handler_register(G.vbi, EV_ALL, ev_consume, NULL);
-        static const int pk[] = { P_H100E, P_R1_TEXT, P_H1FF };
-        for (int i = 0; i < 3; i++) feed_ttx(PKT[pk[i]]);
+        /* benign text only: an undefined operation executed here would be recorded against no case, and UBSan reports
+         * a source location once per process - the workers forked later would stay silent about it */
+        uint8_t row[42]; pk_row(row, 1, 1, " WARM UP ");
+        feed_ttx(PKT[P_H100E]); feed_ttx(row); feed_ttx(PKT[P_H1FF]);
         feed_cc(21, 0x14, 0x25); feed_cc(21, 'A', 'B');
         for (int id = LT_READ0; id < LT_READ1; id++) do_letter(id);
         drop_held();
         vbi_decoder_delete(G.vbi); G.vbi = NULL;
+        acct_on = 0;
+        for (int i = 0; i < ATAB; i++) if (atab[i].p && atab[i].p != TOMB) { void *p = atab[i].p; atab[i].p = TOMB; __wrap_free(p); }
+        acct_nlive = 0; acct_bytes = 0;
+        viol_muted = 0;
 }
+
+/* development aid: C01_ONLY=<substring> runs only the phases whose name contains it (never set by bin/check) */
+static int phase_wanted(const char *name) { const char *o = getenv("C01_ONLY"); return !o || strstr(name, o) || mc_replaying; }
+#define POOL(name, n, fn, arg, to) do { if (phase_wanted(name)) mc_pool(name, n, fn, arg, to); } while (0)
 
 int main(int argc, char **argv)
 {
@@ -621,7 +835,7 @@ int main(int argc, char **argv)
                 perror("C01: re-exec"); return 2;
         }
         mc_init(argc, argv, "C01");
-        mc_set_budget(240, 1500);
+        mc_set_budget(420, 1500);
         int thorough = mc_tier == MC_THOROUGH;
 
         build_packets(); build_letters(); build_stories(); build_cc_states(); build_growth();
@@ -640,7 +854,7 @@ int main(int argc, char **argv)
 
         /* ---- layers ---- */
         struct layer *ly;
-        ly = &LY[NLY++]; ly->name = "ttx"; ly_range(ly, LT_TTX0, LT_TTX0 + NPKT); ly->depth[0] = 3; ly->depth[1] = 4;
+        ly = &LY[NLY++]; ly->name = "ttx"; ly->probe = 1; ly_range(ly, LT_TTX0, LT_TTX0 + NPKT); ly->depth[0] = 3; ly->depth[1] = 4;
         ly = &LY[NLY++]; ly->name = "cc"; ly_range(ly, LT_CC0, LT_CC1); ly->depth[0] = 3; ly->depth[1] = 4;
         ly = &LY[NLY++]; ly->name = "misc"; ly_range(ly, LT_MISC0, LT_MISC1);
         { static const char *n[] = { "8/30/1", "8/30/1 (other network)", "8/30/2", "8/30/2 (other network)", "H100+erase", "row1 text+links", "H1FF(filler)", "F1 RU2", "F1 text AB",
@@ -697,25 +911,34 @@ int main(int argc, char **argv)
 
         char bound[1400]; size_t o = 0;
         for (int i = 0; i < NLY; i++) o += snprintf(bound + o, sizeof bound - o, "%slayer %s: %d letters, depth %d", i ? "; " : "", LY[i].name, LY[i].n, LY[i].depth[thorough]);
-        o += snprintf(bound + o, sizeof bound - o, "; byte exhaustive: %d (state,packet) targets of %d storylines x 42 positions x 256 values; caption: %d states x 2 fields x 65536 pairs; growth: %d storylines + all %d-letter sequences over %d letters, 9 repetitions; aux IDL/PFC: 3 packets x 42 x 256",
-                      NTG, NST, n_cc_states, NST, grow_len, NGROW);
+        o += snprintf(bound + o, sizeof bound - o, "; byte exhaustive: %d (state,packet) targets of %d storylines x 42 positions x 256 values; caption: %d states x 2 fields x 65536 pairs; growth: %d storylines + all %d-letter sequences over %d letters, 9 repetitions; held page: 3 storylines x 2 levels x 10 disturbances x 2 uses; XDS: 96 (class,type) x 11 lengths x %d values x 2 patterns; ITV: 8 strings x every position x 96 characters; all 65536 WSS words, 256 CPR-1204 bytes, VPS 3 bases x 13 bytes x 256; aux IDL/PFC: 3 packets x 42 x 256",
+                      NTG, NST, n_cc_states, NST, grow_len, NGROW, thorough ? 96 : 9);
         mc_meta("bound", "%s", bound);
         mc_note("alphabet: %d letters (%d Teletext packets, %d caption/XDS/ITV, %d misc, %d read side)", NLT, NPKT, LT_CC1 - LT_CC0, LT_MISC1 - LT_MISC0, LT_READ1 - LT_READ0);
 
-        mc_pool("storylines-selfcheck", NST, story_selfcheck_case, NULL, 60);
+        POOL("storylines-selfcheck", NST, story_selfcheck_case, NULL, 60);
 
-        for (int i = 0; i < NLY; i++) {
+        POOL("byte-exhaustive", (uint64_t) NTG * 42, byte_case, NULL, 120);
+        { static int use0 = 0, use1 = 1;
+          POOL("held-page-draw", (uint64_t) 2 * NDISTURB * (sizeof HELD_STORIES / sizeof *HELD_STORIES), held_case, &use0, 60);
+          POOL("held-page-export", (uint64_t) 2 * NDISTURB * (sizeof HELD_STORIES / sizeof *HELD_STORIES), held_case, &use1, 60); }
+        xds_values = thorough ? 96 : 9;
+        POOL("xds-types", 4 * 0x18, xds_case, NULL, 120);
+        POOL("itv-strings", (uint64_t)(NITVS + 1) * 48, itv_case, NULL, 120);
+        POOL("line-bytes", 256 + 3 * 13, line_case, NULL, 120);
+        POOL("caption-pairs", (uint64_t) n_cc_states * 2 * 256, ccpair_case, NULL, 120);
+        { uint64_t nseq = 1; for (int i = 0; i < grow_len; i++) nseq *= NGROW; POOL("growth", NST + nseq, growth_case, NULL, 120); }
+        POOL("aux-idl-pfc", 3 * 42, aux_case, NULL, 60);
+        /* layers last, cheapest first: if the global deadline cuts the run, it cuts the deepest level of the biggest layer */
+        { static const char *order[] = { "read-level25", "read-top", "read-cc", "cross", "misc", "ttx-core", "cc-core", "ttx", "cc" };
+          for (unsigned k = 0; k < sizeof order / sizeof *order; k++) for (int i = 0; i < NLY; i++) {
+                if (strcmp(LY[i].name, order[k])) continue;
                 mc_bfs_spec spec; memset(&spec, 0, sizeof spec);
                 spec.nletters = LY[i].n; spec.max_depth = LY[i].depth[thorough]; spec.timeout_s = 60;
                 spec.run = bfs_run; spec.arg = &LY[i]; spec.letter_name = layer_letter_name;
                 char phase[64]; snprintf(phase, sizeof phase, "bfs-%s", LY[i].name);
                 mc_bfs_result res;
-                mc_bfs(phase, &spec, &res);
-        }
-
-        mc_pool("byte-exhaustive", (uint64_t) NTG * 42, byte_case, NULL, 120);
-        mc_pool("caption-pairs", (uint64_t) n_cc_states * 2 * 256, ccpair_case, NULL, 120);
-        { uint64_t nseq = 1; for (int i = 0; i < grow_len; i++) nseq *= NGROW; mc_pool("growth", NST + nseq, growth_case, NULL, 120); }
-        mc_pool("aux-idl-pfc", 3 * 42, aux_case, NULL, 60);
+                if (phase_wanted(phase)) mc_bfs(phase, &spec, &res);
+          } }
         return mc_finish();
 }
